@@ -165,12 +165,73 @@ DEFAULT_SCRIPT = {"steps": [], "end": ["exit", 0]}
 # tee worker pool under a baton
 
 
+_REAL_THREAD = threading.Thread
+
+
+class _UnboundedPool:
+    """stands in for "the executor" of a thread the program starts itself (no limit on how many run)"""
+    max = 1 << 30
+
+
+class SimThread(_REAL_THREAD):
+    """threading.Thread as seen process-wide.  A thread started by the main thread of a simulated invocation
+    becomes a baton-passed worker like a job of the simulated pool: it runs only when the scheduler resumes it,
+    parks before every raw read of a child's pipe (and at line boundaries of monitored code), join() is a
+    blocking point.  Everything else (the simulator's own threads, threads outside an invocation) is a real
+    thread."""
+
+    _sim_worker = None
+
+    def start(self):
+        s = CUR
+        if s is None or not is_main():
+            return _REAL_THREAD.start(self)
+        w = Worker(len(s.workers), _UnboundedPool, self.run, (), {})
+        # the BufferedReader of a child's pipe handed to the thread is replaced by the parking proxy
+        try:
+            self._args = tuple(PipeProxy(w, a) if isinstance(a, io.BufferedReader) else a for a in self._args)
+            w.args = self._args
+        except AttributeError:
+            pass
+        w.daemon = bool(self.daemon)
+        self._sim_worker = w
+        s.workers.append(w)
+        s.emit("threadstart", w.idx, bool(self.daemon))
+        s.count("reach.program_started_a_raw_thread")
+
+    def join(self, timeout=None):
+        w = self._sim_worker
+        if w is None:
+            return _REAL_THREAD.join(self, timeout)
+        s = CUR
+        if s is not None and is_main() and w.state != "done" and timeout is None:
+            s.block(lambda: w.state == "done", "join")
+
+    def is_alive(self):
+        w = self._sim_worker
+        if w is None:
+            return _REAL_THREAD.is_alive(self)
+        return w.state != "done"
+
+
 class SimFuture(concurrent.futures.Future):
     def result(self, timeout=None):
         s = CUR
         if s is not None and is_main() and not self.done():
             s.block(self.done, "future")
         return super().result(timeout)
+
+
+_REAL_FUTURE_RESULT = concurrent.futures.Future.result
+
+
+def _sh_future_result(self, timeout=None):
+    """Future.result() of any future (also one the program made itself): waiting for it in the main thread of
+    a simulated invocation is a blocking point"""
+    s = CUR
+    if s is not None and is_main() and timeout is None and not self.done() and not isinstance(self, SimFuture):
+        s.block(self.done, "future")
+    return _REAL_FUTURE_RESULT(self, timeout)
 
 
 class _Abandon(BaseException):
@@ -191,8 +252,9 @@ class Worker:
         self.wait_fd = None
         self.abandon = False
         self.in_proxy = False
-        self.thread = threading.Thread(target=self._body, name="simtee-%d" % idx, daemon=True)
-        self.thread.start()
+        self.daemon = False         # a daemon thread of the program is not waited for at interpreter exit
+        self.thread = _REAL_THREAD(target=self._body, name="simtee-%d" % idx, daemon=True)
+        _REAL_THREAD.start(self.thread)
 
     def _body(self):
         self.go.acquire()
@@ -1159,6 +1221,8 @@ def install():
     os.unlink = _fs_logger("unlink", REAL.unlink, 0)
     concurrent.futures.ThreadPoolExecutor = _ExecutorSwitch
     _cft.ThreadPoolExecutor = _ExecutorSwitch
+    threading.Thread = SimThread
+    concurrent.futures.Future.result = _sh_future_result
     _dt.datetime = _make_sim_datetime()
 
     def _global_run(argv, *a, **kw):
@@ -1543,6 +1607,8 @@ class Sim:
         except BrokenPipeError:
             p.partial = None
             return
+        if n:
+            self.emit("cwrote", p.name, stream, n)
         if n < len(data):
             p.partial = (stream, data[n:])
             self.count("reach.child_blocked_on_full_pipe")
@@ -2045,7 +2111,7 @@ class Sim:
         """emulates interpreter shutdown: tee threads are joined (concurrent.futures' atexit hook),
         which needs the children to finish; children are not signalled by that."""
         guard = 0
-        while any(w.state != "done" for w in self.workers):
+        while any(w.state != "done" and not w.daemon for w in self.workers):
             acts = self.enabled_actions()
             if not acts:
                 inv.exit_hang = True
